@@ -96,6 +96,14 @@ def run (t : Tier) : Emit Unit := do
         emit "C06" (demuxCase (bytesOf dup) { view := .perpid, onlyPES := true } none (some expPES) "dup-every-position")
       else
         emit "C06" (demuxCase (bytesOf dup) { view := .perpid, onlyPES := true, noErr := true } none (some expPESnoErr) "dup-table-pid-position")
+    -- several duplicates in one stream: every packet of the PES PIDs sent twice, and random subsets
+    let dupAll := (ps.map fun p => if isPESPid m p.header.pid then [p, p] else [p]).flatten
+    emit "C06" (demuxCase (bytesOf dupAll) { view := .perpid, onlyPES := true } none (some expPES) "dup-every-pes-packet")
+    for _ in [0:(if t.quick then 4 else 12)] do
+      let mut out : List Packet := []
+      for p in ps do
+        if isPESPid m p.header.pid ∧ (← liftGen (chance 1 2)) then out := out ++ [p, p] else out := out ++ [p]
+      emit "C06" (demuxCase (bytesOf out) { view := .perpid, onlyPES := true } none (some expPES) "dup-random-subset")
     -- every single-packet deletion position that is followed by a later payload packet of the same PID
     for k in [0:ps.length] do
       let p := ps.getD k default
